@@ -35,6 +35,7 @@ EXTENDS Demux, Json, CSV, IOUtils
 
 CONSTANTS SheetIdx,     \* indexes (0..767) of the sheets of the run, see ParamOf
           NSeed,        \* number of further sheets drawn from IOEnv.VERIF_SEED
+          Thin,         \* TRUE: a subset of the single-mismatch positions and of the tag substitutions (quick tier)
           ScanMod       \* ScanThm is evaluated on the sheets whose index is a multiple of ScanMod (it doubles the work)
 
 VARIABLES si, sc, done, res
@@ -108,7 +109,7 @@ ApplyEdit(t, ed) ==
     [] ed.k = 3 -> SubSeq(t, 1, ed.p - 1) \o SubSeq(t, ed.p + 1, Len(t))
     [] ed.k = 4 -> SubSeq(t, 1, ed.p - 1) \o <<ed.x>> \o SubSeq(t, ed.p, Len(t))
 
-EditsFull(L) == {Ed(1, p, x, 0, 0) : p \in 1..L, x \in 1..3}
+EditsFull(L) == {Ed(1, p, x, 0, 0) : p \in 1..L, x \in IF Thin THEN {1, 3} ELSE 1..3}
                 \cup {Ed(2, 1, 3, L, 3), Ed(2, 2, 3, 3, 1)}
                 \cup {Ed(3, p, 0, 0, 0) : p \in 1..L}
                 \cup {Ed(4, 1, 0, 0, 0), Ed(4, L, 3, 0, 0)}
@@ -129,7 +130,8 @@ Plain(mk, smp, ori, bc) == Amp(mk, smp, ori, {}, {}, NoEd, NoEd, "", bc)
 
 Scn(cls, amps, fl, mid) == [cls |-> cls, amps |-> amps, lf |-> LFl[fl], rf |-> RFl[fl], mid |-> Mid[mid]]
 
-MisSingle == {<<{p}, {}>> : p \in 1..PLen} \cup {<<{}, {p}>> : p \in 1..PLen}
+MisPos    == IF Thin THEN {1, 4, PLen} ELSE 1..PLen
+MisSingle == {<<{p}, {}>> : p \in MisPos} \cup {<<{}, {p}>> : p \in MisPos}
 MisMulti  == { <<{1, 8}, {}>>, <<{}, {2, 7}>>, <<{3}, {5}>>, <<{2, 6}, {4}>>, <<{1, 4, 8}, {}>>, <<{}, {2, 3, 7}>>,
                <<{1, 2}, {7, 8}>>, <<{4, 5, 6}, {1}>> }
 
